@@ -66,10 +66,10 @@ let op_allocparse t =
     | [] -> "allocparse"
     | r0 :: rest -> sp "allocparse r=%s%s" (if int_of_z r0 < 0 then "-1" else "0") (S.concat "" (List.map (fun r -> "," ^ code r) rest)) ^ finish h)
 
-(* every release routine on a zero-initialised object: sixteen free(NULL) calls *)
+(* every release routine on a zero-initialised object: eighteen free(NULL) calls (frame: 2, bss, sta, data, eleven generator objects, action, tag; the EAPOL and detail routines guard theirs) *)
 let op_freezero _ =
   let h = ref M.heap0 in
-  for _ = 1 to 16 do (match M.h_free None !h with M.Done h' -> h := h' | _ -> ()) done;
+  for _ = 1 to 18 do (match M.h_free None !h with M.Done h' -> h := h' | _ -> ()) done;
   "freezero ok" ^ finish !h
 
 let ops : (S.t * (S.t array -> S.t)) list = [ "freezero", op_freezero; "allocgen", op_allocgen; "allocact", op_allocact; "allocparse", op_allocparse ]
